@@ -395,8 +395,21 @@ func (s *Syncer) addPeer(p *Peer) error {
 	}
 
 	s.mu.Lock()
+	defer s.mu.Unlock()
+	if p.Inbound {
+		// allowConnect checked the limit before the handshake; other inbound
+		// peers may have been added since, so check again before inserting
+		var in int
+		for _, p := range s.peers {
+			if p.Inbound {
+				in++
+			}
+		}
+		if in >= s.config.MaxInboundPeers {
+			return errors.New("too many inbound peers")
+		}
+	}
 	s.peers[p.t.Addr] = p
-	s.mu.Unlock()
 	return nil
 }
 
